@@ -19,6 +19,12 @@ Space (enumerated completely, nothing sampled):
      that 'first in the process' is first), with the plain and the Fortran read functions in BOTH orders
      (plain, Fortran, plain) / (Fortran, plain, Fortran): every object must give what its own read function gives for
      the cell text, whatever was opened before (order independence), and the Fortran cells obey the C16 oracle.
+  TE the same records as the LAST record of an incon file that ends with a newline and a blank record / a newline only /
+     nothing at all, read through fixed_format_file.read_values (both reader tables) and t2incon(filename);
+  H  the results header of a shipped AUTOUGH2 listing (' OUTPUT AFTER<I4> TIME STEPS <time> SECONDS') rewritten, for the
+     first and the last result set, with Fortran renderings of the step (digits, sign, blanks, overflow asterisks) and of
+     the time: the listing must open and step / time at that result set must be what fortran_int / fortran_float give
+     for the field texts (quick: one field varied at a time; thorough: crossed).
 Oracle: ref/c16ref.judge_real / judge_int (the property statement; large don't-care class for malformed text).
 """
 import contextlib
@@ -119,6 +125,10 @@ def units(tier):
     # the readers as the file parsers use them, in both orders of (plain readers, Fortran readers) within one process
     for order in FILE_ORDERS:
         us.append(('T', order))
+    for ending in FILE_ENDINGS:
+        us.append(('TE', ending))
+    for which_set in ('first', 'last'):
+        us.append(('H', which_set))
     return us
 
 
@@ -822,6 +832,226 @@ def file_route(order, tier):
 _KEEP = []
 
 
+# ---------------------------------------------------------------------------------------------------------
+# TE: the same records as the LAST record of a file, with each way a file can end: a newline and a blank record, a
+# newline only, nothing at all.  Read through fixed_format_file.read_values (both reader tables) and t2incon(filename).
+
+FILE_ENDINGS = ('newline+blank-record', 'newline', 'nothing')
+ENDING_TEXT = {'newline+blank-record': '\n\n', 'newline': '\n', 'nothing': ''}
+
+
+def ending_texts():
+    return ZEROS + ['0.1000000000000E+06', '-0.9999999999999E-99', '0.1D+01', '-.25-101', '1.5+100', '0.1E 05', '7', '12.',
+                    '*' * 20, 'NaN']
+
+
+def ending_case(ending, vars_):
+    """One file whose last record is the variables line vars_.  -> [(sig, what)]"""
+    import fixed_format_file as fff
+    import t2incons
+    out = []
+    record = ''.join(v.rjust(20) for v in vars_)
+    path = os.path.join(core.scratch(), 'c16_ending.incon')
+    with open(path, 'w') as f:
+        f.write('INCON\n' + 'zza 1' + '\n' + record + ENDING_TEXT[ending])
+    cells = [record[k:k + 20] for k in range(0, 80, 20)]
+    cls = file_class(vars_[-1])
+    tables = {'plain': fff.default_read_function, 'fortran': fff.fortran_read_function}
+    for which in ('fortran', 'plain'):
+        rf = tables[which]
+        want = [own_reading(rf, 'e', c) for c in cells]
+        prs = None
+        try:
+            with core.timelimit(CHILD_LIMIT):
+                prs = fff.fixed_format_file(path, 'r', t2incons.t2incon_format_specification, rf)
+                prs.readline()
+                prs.read_values('incon1')
+                got = prs.read_values('incon2')
+        except core.CaseTimeout:
+            out.append(('C16|read_values(%s)|does-not-terminate|%s|file-ends-with=%s' % (which, cls, ending), 'no result in %d s' % CHILD_LIMIT))
+            continue
+        except Exception as e:
+            out.append(('C16|read_values(%s)|raises-%s|%s|file-ends-with=%s' % (which, type(e).__name__, cls, ending),
+                        'read_values of last record %r raised %r' % (record, e)))
+            continue
+        finally:
+            if prs is not None:
+                prs.close()
+        if [canon(x) for x in got] != [canon(x) for x in want]:
+            out.append(('C16|read_values(%s)|cell-value|%s|file-ends-with=%s' % (which, cls, ending),
+                        'last record %r of a file ending with %r: read_values gives %r, the %s readers give %r for its cells'
+                        % (record, ENDING_TEXT[ending], got, which, want)))
+    want = strip_trailing_none([own_reading(tables['fortran'], 'e', c) for c in cells])
+    try:
+        with core.timelimit(CHILD_LIMIT):
+            with contextlib.redirect_stdout(io.StringIO()):
+                inc = t2incons.t2incon(path)
+        got = list(inc._blocklist[0].variable) if inc._blocklist else None
+        if got is None or [canon(x) for x in got] != [canon(x) for x in want]:
+            out.append(('C16|t2incon(fortran)|variable-value|%s|file-ends-with=%s' % (cls, ending),
+                        'last record %r of a file ending with %r: t2incon reads %r, the Fortran readers give %r'
+                        % (record, ENDING_TEXT[ending], got, want)))
+    except core.CaseTimeout:
+        out.append(('C16|t2incon(fortran)|does-not-terminate|%s|file-ends-with=%s' % (cls, ending), 'no result in %d s' % CHILD_LIMIT))
+    except Exception as e:
+        out.append(('C16|t2incon(fortran)|raises-%s|%s|file-ends-with=%s' % (type(e).__name__, cls, ending),
+                    't2incon of a file whose last record is %r raised %r' % (record, e)))
+    return out
+
+
+def run_TE(ending, tier, rec):
+    n = 0
+    for t in ending_texts():
+        if R.expect_real(t)[0] == R.ANY:
+            continue
+        for p in range(4):
+            vars_ = FILLER[:p] + [t]
+            for sig, what in ending_case(ending, vars_):
+                rec.violation(sig, what, {'kind': 'file-ending', 'ending': ending, 'vars': vars_})
+            rec.case(('TE', ending, t, p), outcome='file-ending')
+            n += 1
+    rec.count('file_ending_cases', n)
+    rec.sample({'file_ends_with': ending, 'last_record': FILLER[0].rjust(20) + '0.1000000000000E+06'.rjust(20)})
+
+
+# ---------------------------------------------------------------------------------------------------------
+# H: the readers as the listing reader uses them for the results header of an AUTOUGH2 listing
+# (' OUTPUT AFTER<I4 steps> TIME STEPS <time> SECONDS').  The header lines of one result set of a shipped listing are
+# rewritten with Fortran renderings of the step (incl. overflow asterisks, blanks) and of the time; the listing must
+# open, and at that result set step and time must be what fortran_int / fortran_float give for the field texts.
+
+HEADER_LISTING = os.path.join('tests', 'listing', 'AUTOUGH2', '2', 'case2.listing')
+_HEADER_SRC = {}
+
+
+def header_source():
+    if not _HEADER_SRC:
+        path = os.path.join(core.REPO, HEADER_LISTING)
+        if not os.path.exists(path):
+            raise core.HarnessError('shipped listing %s not found' % path)
+        with open(path) as f:
+            lines = f.read().split('\n')
+        hdr = [i for i, l in enumerate(lines) if 'OUTPUT AFTER' in l and 'TIME STEPS' in l and 'SECONDS' in l]
+        steps = []
+        for i in hdr:
+            a, b = lines[i].find('AFTER') + 5, lines[i].find('TIME STEPS')
+            steps.append(lines[i][a:b])
+        real = [t for t in steps if t.strip() not in ('', '0')]
+        _HEADER_SRC.update(lines=lines, hdr=hdr, steps=steps, first=real[0], last=real[-1])
+    return _HEADER_SRC
+
+
+def step_texts():
+    return ['   1', '  12', ' 999', '9999', '****', '+  3', ' 1 2', '  -1', '   0', '  +7']
+
+
+def time_texts(tier):
+    out, seen = [], set()
+
+    def put(t):
+        if t not in seen and len(t) <= 24 and R.expect_real(t)[0] != R.ANY:
+            seen.add(t)
+            out.append(t)
+
+    for z in ('0.0000000000000000E+00', '0.1000000000000000E+01'):
+        put(z)
+    for sign, digs, e, value in R.real_values([-100, 0, 9, 300] if tier == 'quick' else [-300, -100, -99, 0, 9, 99, 100, 300], [1, 16]):
+        if sign:
+            continue
+        for c in R.e_renderings(value, len(digs)):
+            put(c)
+    put('*' * 22)
+    put('1000000.')
+    return out
+
+
+def header_case(which_set, step_text, time_text):
+    import t2listing
+    import fixed_format_file as fff
+    src = header_source()
+    target = src[which_set]
+    lines = list(src['lines'])
+    for i, st in zip(src['hdr'], src['steps']):
+        if st == target:
+            l = lines[i]
+            a, b = l.find('AFTER') + 5, l.find('TIME STEPS')
+            l = l[:a] + step_text + l[b:]
+            b2, c = l.find('TIME STEPS') + 10, l.find('SECONDS')
+            lines[i] = l[:b2] + ' ' + time_text.rjust(24) + ' ' + l[c:]
+    path = os.path.join(core.scratch(), 'c16_header.listing')
+    with open(path, 'w') as f:
+        f.write('\n'.join(lines))
+    time_field = ' ' + time_text.rjust(24) + ' '
+    want_step, want_time = fff.fortran_int(step_text), fff.fortran_float(time_field)
+    cls = 'step=%s,time=%s' % (file_class_int(step_text), file_class(time_text))
+    site = 'C16|t2listing.read_header_AUTOUGH2'
+    out, lst = [], None
+    try:
+        with core.timelimit(CHILD_LIMIT):
+            with contextlib.redirect_stdout(io.StringIO()):
+                lst = t2listing.t2listing(path)
+                lst.index = 0 if which_set == 'first' else lst.num_fulltimes - 1
+                got_step, got_time = lst.step, lst.time
+    except core.CaseTimeout:
+        return [('%s|does-not-terminate|%s|set=%s' % (site, cls, which_set), 'no result in %d s' % CHILD_LIMIT)]
+    except BaseException as e:
+        if isinstance(e, (KeyboardInterrupt, SystemExit)):
+            raise
+        return [('%s|raises-%s|%s|set=%s' % (site, type(e).__name__, cls, which_set),
+                 'listing whose %s results header reads AFTER%sTIME STEPS%sSECONDS cannot be read: %r' % (which_set, step_text, time_field, e))]
+    finally:
+        if lst is not None:
+            try:
+                lst.close()
+            except Exception:
+                pass
+    if canon(got_step) != canon(want_step):
+        out.append(('%s|step-value|%s|set=%s' % (site, cls, which_set),
+                    'step field %r read as %r, fortran_int gives %r' % (step_text, got_step, want_step)))
+    if canon(float(got_time) if got_time is not None else None) != canon(want_time):
+        out.append(('%s|time-value|%s|set=%s' % (site, cls, which_set),
+                    'time field %r read as %r, fortran_float gives %r' % (time_field, got_time, want_time)))
+    return out
+
+
+def file_class_int(t):
+    cls, val = R.expect_int(t)
+    if cls == R.NONE:
+        return 'not-a-number'
+    if cls == R.BLANK:
+        return 'blank'
+    return 'integer' if ' ' not in t.strip(' ') else 'integer-with-blank'
+
+
+BASE_STEP = '   1'
+BASE_TIMES = ['0.1000000000000000E+01', '.25-101', '*' * 22]
+
+
+def header_times(step_text, tier):
+    """quick: the base step with every time text, every step text with three base times (one deviation at a time);
+    thorough: every step text with every quick time text, the base step with the larger time set."""
+    if tier == 'quick':
+        return time_texts('quick') if step_text == BASE_STEP else BASE_TIMES
+    return time_texts('thorough') if step_text == BASE_STEP else time_texts('quick')
+
+
+def run_H(which_set, tier, rec):
+    n = 0
+    f = fns()
+    for st in step_texts():
+        j = R.judge_int(st, f['fortran_int'](st, SENT), SENT)
+        if j is not None:
+            rec.violation('C16|fortran_int|%s|%s' % (j[0], R.input_class(st)), 'fortran_int(%r) is not %s' % (st, j[1]),
+                          {'fn': 'fortran_int', 's': st, 'blank': 'sentinel'})
+        for tt in header_times(st, tier):
+            for sig, what in header_case(which_set, st, tt):
+                rec.violation(sig, what, {'kind': 'listing-header', 'set': which_set, 'step_text': st, 'time_text': tt})
+            rec.case(('H', which_set, st, tt), outcome='listing-header')
+            n += 1
+    rec.count('listing_header_cases', n)
+    rec.sample({'listing_header': ' OUTPUT AFTER**** TIME STEPS    0.1000000000000000E+07 SECONDS', 'result_set': which_set})
+
+
 def run_T(order, tier, rec):
     viol, n, keys = file_route(order, tier)
     for sig, what in viol:
@@ -848,6 +1078,10 @@ def run_unit(unit, tier, rec):
         run_R(unit[1], unit[2], tier, rec)
     elif kind == 'T':
         run_T(unit[1], tier, rec)
+    elif kind == 'TE':
+        run_TE(unit[1], tier, rec)
+    elif kind == 'H':
+        run_H(unit[1], tier, rec)
     else:
         raise core.HarnessError('unknown unit %r' % (unit,))
 
@@ -862,6 +1096,10 @@ def finalize(rec, tier):
 
 
 def replay(case):
+    if case.get('kind') == 'file-ending':
+        return ending_case(case['ending'], case['vars'])
+    if case.get('kind') == 'listing-header':
+        return header_case(case['set'], case['step_text'], case['time_text'])
     if case.get('kind') == 'file':
         viol, n, keys = file_route(case['order'], case['tier'])
         return [(sig, what) for sig, what in viol if sig == case.get('sig', sig)]
